@@ -15,7 +15,8 @@ Local Open Scope list_scope.
 (* PipelineSteps *)
 Definition moves (s : stmt) : bool :=
   match s with
-  | SV _ | SE _ | SIn _ | SOut _ | SBoth _ | SInE _ | SOutE _ | SBothE _ | SSelect _ => true
+  | SV _ | SE _ | SIn _ | SOut _ | SBoth _ | SInE _ | SOutE _ | SBothE _ | SSelect _
+  | SInNull _ | SOutNull _ | SInENull _ | SOutENull _ => true
   | _ => false
   end.
 Fixpoint step_ids_from (cur : nat) (p : list stmt) : list nat :=
@@ -161,4 +162,33 @@ Definition indexed_plan (p : list ostmt) : list (nat * stmt) := combine (plan_st
 Definition plan_outputs (p : list ostmt) : outmap := fst (analyse (as_steps (indexed_plan p)) (indexed_plan p)).
 Definition plan_reads_covered (p : list ostmt) (o : outmap) : bool :=
   let l := indexed_plan p in
+  forallb (stmt_covered (as_steps l) o) l && last_scan_covered o l.
+
+(* ---------- statements outside the alphabet of Model/Traversal.v, as the analysis sees them ---------- *)
+(* aggregate reads the fields of its aggregations, set / increment their key, jump the fields of its condition; mark reads
+   nothing; the null-producing moves (outNull, inNull, outENull, inENull) advance the step counter but are not among the
+   scanning statements of PipelineStepOutputs. For the analysis each is equivalent to a statement of the model that reads
+   the same fields and has no case of its own in the switch (hasKey / path). *)
+Inductive xstmt :=
+| XS (s : stmt) | XAggregate (fields : list string) | XSet (key : string) | XIncrement (key : string)
+| XJump (cond : option hexpr) | XMark | XNullMove.
+Definition x_moves (x : xstmt) : bool := match x with XS s => moves s | XNullMove => true | _ => false end.
+Definition x_repr (x : xstmt) : stmt :=
+  match x with
+  | XS s => s
+  | XAggregate fs => SHasKey fs
+  | XSet k | XIncrement k => SHasKey [k]
+  | XJump (Some e) => SHasKey (hexpr_fields e)
+  | XJump None | XMark | XNullMove => SPath
+  end.
+Fixpoint x_step_ids_from (cur : nat) (p : list xstmt) : list nat :=
+  match p with
+  | [] => []
+  | x :: r => let c := if x_moves x then S cur else cur in c :: x_step_ids_from c r
+  end.
+Definition x_step_ids (p : list xstmt) : list nat := x_step_ids_from 0 p.
+Definition x_indexed (p : list xstmt) : list (nat * stmt) := combine (x_step_ids p) (map x_repr p).
+Definition x_outputs (p : list xstmt) : outmap := fst (analyse (as_steps (x_indexed p)) (x_indexed p)).
+Definition x_reads_covered (p : list xstmt) (o : outmap) : bool :=
+  let l := x_indexed p in
   forallb (stmt_covered (as_steps l) o) l && last_scan_covered o l.
